@@ -246,7 +246,7 @@ func runSeq(rec *mon.Recorder, e *env, c int) {
 	}
 	bigLeft := 0
 	if c%80 == 47 {
-		bigLeft = 5 // a few entries of more than a megabyte: stored outside the LSM tree by the production options
+		bigLeft = 10 // ten entries of more than a megabyte (an unlimited range read of them exceeds 8 MiB): stored outside the LSM tree by the production options
 		rec.Count("cases_with_megabyte_entries", 1)
 	}
 	data := func() []byte {
